@@ -53,6 +53,12 @@ func main() {
 			m := modelCmp(c.Route, model[i])
 			if strings.HasPrefix(model[i], "driver-error") {
 				rep.HarnessError("driver: %s on %s", model[i], lines[i])
+			} else if strings.HasPrefix(model[i], "unmod") && c.Route == "hist" && hasOtherMap(c) {
+				// A history that passes ANOTHER Funcs map on a later Execute (against the documented
+				// contract) can shift the native indexes, so the model's call lands on a function for
+				// whose argument values the harness prepared no primitive views: not compared.
+				rep.Unmodelled++
+				rep.Count("unmodelled:hist-other-map-needs-unprepared-view")
 			} else if m != impl[i].cmp(c.Route) {
 				// "unmod" can only mean that the model asked for a primitive view the harness
 				// did not supply, i.e. it computed a different number/string: a mismatch.
@@ -63,6 +69,15 @@ func main() {
 		oracle(c, impl[i], rep)
 	}
 	rep.Write(o.Out)
+}
+
+func hasOtherMap(c kase) bool {
+	for _, m := range c.Maps {
+		if m != nil {
+			return true
+		}
+	}
+	return false
 }
 
 func replay(o hx.Opts) int {
